@@ -32,6 +32,10 @@ NOT_OBSERVED_PREFIX = ()
 # sticky status words that the pipeline only ever ORs into (never recomputed): part of the Data object's reported status,
 # kept concrete (equal in both histories)
 STICKY = {"overflow"}
+# Data.cvel / Data.cdof_dot are read by make_constraint (fwd_position) before fwd_velocity recomputes them: a recorded known
+# finding (unit stage-order/*).  In the main runs they are kept consistent (concrete) so that this one defect does not
+# taint every downstream result; the dedicated unit makes exactly them stale.
+KNOWN_LAGGED = {"cvel", "cdof_dot"}
 
 
 def stale_symbols(term, acc):
@@ -198,13 +202,20 @@ def real_host_call(fn, m, arrs, make_real_data, log=None):
       hr.__enter__()
 
 
+FILLS = ((0.0, 0, False), (3.25, 1, True), (-2.5, 2, True))  # (float, int, bool) patterns for cells that hold stale symbols
+
+
+def _fillval(fill, dtype):
+  return fill[0] if dtype == "real" else (fill[1] if dtype == "int" else fill[2])
+
+
 def _real_host_call(fn, m, arrs, make_real_data, log=None):
-  fills = (0.0, 3.25)
   outs = []
   nsym = 0
-  pre32 = {}
-  for fill in fills:
+  pre32 = []
+  for fill in FILLS:
     d = make_real_data()
+    pre = {}
     for n, sa in arrs.items():
       c = sa.ref.cell
       if c.size == 0:
@@ -214,18 +225,20 @@ def _real_host_call(fn, m, arrs, make_real_data, log=None):
         continue
       real = getattr(obj, attr)
       buf = np.zeros((c.size, c.ncomp), dtype=np.float64)
+      fv = _fillval(fill, c.dtype)
       for k in range(c.ncomp):
         col = c.d[k]
         for i in range(c.size):
           x = col[i]
           if is_sym(x):
             nsym += 1
-            buf[i, k] = fill if c.dtype != "bool" else (fill != 0.0)
+            buf[i, k] = fv
           else:
             buf[i, k] = x
       rn = real.numpy()
       real.assign(buf.reshape(rn.shape).astype(rn.dtype))
-      pre32.setdefault(fill, {})[n] = real.numpy().reshape(c.size, c.ncomp).astype(np.float64)
+      pre[n] = real.numpy().reshape(c.size, c.ncomp).astype(np.float64)
+    pre32.append(pre)
     fn(m, d)
     res = {}
     for n, sa in arrs.items():
@@ -238,7 +251,6 @@ def _real_host_call(fn, m, arrs, make_real_data, log=None):
       res[n] = getattr(obj, attr).numpy().reshape(c.size, c.ncomp).astype(np.float64)
     outs.append(res)
     if nsym == 0:
-      outs.append(res)
       break
   ntaint = 0
   tainted = []
@@ -246,26 +258,27 @@ def _real_host_call(fn, m, arrs, make_real_data, log=None):
     c = sa.ref.cell
     if n not in outs[0]:
       continue
-    r0, r1 = outs[0][n], outs[1][n]
     conv = {"int": int, "real": float, "bool": bool}[c.dtype]
     for k in range(c.ncomp):
       for i in range(c.size):
-        a, b = r0[i, k], r1[i, k]
-        same = (a == b) or (np.isnan(a) and np.isnan(b)) or (c.dtype == "real" and abs(a - b) <= 1e-6 * (abs(a) + abs(b)) + 1e-9)
+        vals = [o[n][i, k] for o in outs]
+        a = vals[0]
+        # the property demands bit-identical results: exact comparison
+        same = all((v == a) or (np.isnan(a) and np.isnan(v)) for v in vals[1:])
         if same:
-          unchanged = (not is_sym(c.d[k][i])) and (a == pre32[fills[0]][n][i, k] or (np.isnan(a) and np.isnan(pre32[fills[0]][n][i, k])))
+          unchanged = (not is_sym(c.d[k][i])) and (a == pre32[0][n][i, k] or (np.isnan(a) and np.isnan(pre32[0][n][i, k])))
           if not unchanged:
             c.d[k][i] = conv(a) if not np.isnan(a) else float("nan")
             if getattr(c, "wmask", None) is not None:
               c.wmask[i] = True
-        elif is_sym(c.d[k][i]) and a == pre32[fills[0]][n][i, k] and b == pre32[fills[1]][n][i, k]:
+        elif is_sym(c.d[k][i]) and all(v == p[n][i, k] for v, p in zip(vals, pre32)):
           pass  # untouched stale cell keeps its symbol
         else:
           ntaint += 1
           tainted.append(f"{n}[{i}]")
           c.d[k][i] = z3.Const(f"stale:via:{fn.__name__}:{n}[{i}]#{k}", c.sort)
   if log:
-    log(f"real {fn.__name__}: {nsym // max(1, len(fills))} stale scalars in its Data, {ntaint} result cells differ between two stale fills {tainted[:6]}")
+    log(f"real {fn.__name__}: {nsym // max(1, len(outs))} stale scalars in its Data, {ntaint} result cells differ between {len(outs)} stale fills {tainted[:6]}")
   return ntaint
 
 
@@ -285,7 +298,7 @@ def validity_guard(name, idx, post):
   return None
 
 
-def unit_forward(mname, vname, fn_name):
+def unit_forward(mname, vname, fn_name, only_stale=None):
   def run(ctx):
     import mujoco
 
@@ -347,12 +360,17 @@ def unit_forward(mname, vname, fn_name):
     for n, a in arrs.items():
       if n.split(".")[0] in STATE or n.split(".")[0] in STICKY:
         continue
+      if (only_stale is None and n in KNOWN_LAGGED) or (only_stale is not None and n not in only_stale):
+        continue
       c = a.ref.cell
       wm = wmasks.get(n)
       if not wm:
         continue
+      # capacity-dimensioned buffers (constraint rows, contacts): every slot may hold leftovers of an earlier, larger step,
+      # also slots this particular call does not write; per-body/geom arrays: only the cells the call recomputes
+      whole = n.startswith("efc.") or n.startswith("contact.")
       for f in range(c.size):
-        if wm[f]:
+        if wm[f] or whole:
           for k in range(c.ncomp):
             c.d[k][f] = z3.Const(f"stale:{n}{list(c.unflat(f))}" + (f"#{k}" if c.ncomp > 1 else ""), c.sort)
             nstale += 1
@@ -420,7 +438,7 @@ def unit_forward(mname, vname, fn_name):
           if t is c.d0[k][f]:
             continue  # never written: not a result of this call
           syms = stale_symbols(t, {})
-          syms = {s: v for s, v in syms.items() if s in allsyms}
+          syms = {s: v for s, v in syms.items() if s in allsyms or s.startswith("stale:") or s.startswith("uninit!")}
           if not syms:
             ntriv += 1
             continue
@@ -442,7 +460,7 @@ def unit_forward(mname, vname, fn_name):
             continue
           gz = core.zbool(g)
           # guard must hold in both histories for the cell to be observable in both
-          g2 = z3.substitute(gz, *[(v, z3.Const(s + "'", v.sort())) for s, v in stale_symbols(gz, {}).items() if s in allsyms])
+          g2 = z3.substitute(gz, *[(v, z3.Const(s + "'", v.sort())) for s, v in stale_symbols(gz, {}).items() if s in allsyms or s.startswith("stale:") or s.startswith("uninit!")])
           eq = z3.Implies(z3.And(gz, g2), eq)
         goals.append((f, k, eq, syms))
       if not goals:
@@ -460,12 +478,28 @@ def unit_forward(mname, vname, fn_name):
       )
     ctx.notes.append(f"{ntriv} result cells syntactically stale-free, {nq} arrays needed the solver")
 
-  return (f"{fn_name}/{mname}/{vname}", run)
+  return ((f"stage-order/{mname}/{vname}" if only_stale else f"{fn_name}/{mname}/{vname}"), run)
 
 
 def make_replay(ctx, mname, vname, fn_name, arrname, arrs, allsyms, goals):
   def _rp(model):
     """two real Data objects with the same state, stale contents from the model (unprimed / primed), real call, compare"""
+    import mujoco
+
+    import mujoco_warp as mjw
+
+    var = {v[0]: v for v in harvest.VARIANTS}[vname]
+    xml = harvest.CORPUS[mname].format(opt=var[1], flag=var[2])
+    attempts = [("model", None), ("fill", (0, 1)), ("fill", (0, 2))]
+    last = None
+    for mode, fl in attempts:
+      ok, path = _attempt(model, mode, fl)
+      last = (ok, path)
+      if ok:
+        return ok, path
+    return last
+
+  def _attempt(model, mode, fl):
     import mujoco
 
     import mujoco_warp as mjw
@@ -503,6 +537,9 @@ def make_replay(ctx, mname, vname, fn_name, arrname, arrs, allsyms, goals):
           for f in range(c.size):
             x = c.d0[k][f]
             if is_sym(x):
+              if mode == "fill":
+                cur[f, k] = float(_fillval(FILLS[fl[1] if primed else fl[0]], c.dtype))
+                continue
               xx = z3.Const(x.decl().name() + "'", x.sort()) if primed else x
               v = model.eval(xx, model_completion=False)
               if z3.is_int_value(v) or z3.is_rational_value(v) or z3.is_true(v) or z3.is_false(v) or z3.is_algebraic_value(v):
@@ -523,7 +560,7 @@ def make_replay(ctx, mname, vname, fn_name, arrname, arrs, allsyms, goals):
     if arrname.startswith("contact."):
       n = min(outs[0][2], outs[1][2], a.shape[0])
       a, b = a[:n], b[:n]
-    same = np.allclose(a.astype(float), b.astype(float), rtol=1e-5, atol=1e-7, equal_nan=True)
+    same = np.array_equal(a, b, equal_nan=True) if a.dtype.kind == "f" else np.array_equal(a, b)  # bit-identical (property)
     os.makedirs(os.path.join(report.VERIF, "replays", PID), exist_ok=True)
     path = os.path.join(report.VERIF, "replays", PID, f"{fn_name}.{mname}.{vname}.{arrname}.json".replace("/", "_"))
     with open(path, "w") as f:
@@ -543,6 +580,7 @@ def main(tier, seed, only=None):
     combos = list(itertools.product(models, variants))
   for mn, vn in combos:
     units.append(unit_forward(mn, vn, "forward"))
+  units.append(unit_forward("weld", "sparse-newton-ell", "forward", only_stale=KNOWN_LAGGED))
   if only:
     units = [u for u in units if any(o in u[0] for o in only)]
   return report.run_check(PID, units, tier, seed, unit_timeout=600 if tier == "quick" else 1800)
